@@ -28,7 +28,8 @@ type scen struct {
 	events  int
 	bound   int
 	horizon time.Duration
-	kinds   string // per event: 'r' regular, 'c' child, 'p' child-parent (default all regular)
+	script  map[int]string // per batch (keyed by its first event id): results per attempt, 's' = the send takes 100ms, then the next char
+	kinds   string         // per event: 'r' regular, 'c' child, 'p' child-parent (default all regular)
 }
 
 const retention = 10 * time.Millisecond
@@ -42,18 +43,19 @@ type attempt struct {
 }
 
 type obs struct {
-	sc       scen
-	idOf     map[*pipeline.Event]int
-	attempts []attempt
-	commits  map[int][]string // id -> by whom ("main"/"dq") at commit time
-	commitAt map[int]time.Duration
-	onErr    map[int]int // id -> times reported through onError
-	dqOut    map[int]int // id -> times handed to dead queue Out
-	dqSent   map[int]int
-	pending  map[int]bool // id -> an attempt series for its batch is in progress (between first attempt and success/give-up)
-	gaveUp   map[int]bool
-	calls    int
-	fs       []vexplore.Finding
+	sc           scen
+	idOf         map[*pipeline.Event]int
+	attempts     []attempt
+	commits      map[int][]string // id -> by whom ("main"/"dq") at commit time
+	commitAt     map[int]time.Duration
+	onErr        map[int]int // id -> times reported through onError
+	dqOut        map[int]int // id -> times handed to dead queue Out
+	dqSent       map[int]int
+	pending      map[int]bool // id -> an attempt series for its batch is in progress (between first attempt and success/give-up)
+	gaveUp       map[int]bool
+	calls        int
+	perBatch     map[int]int
+	fs           []vexplore.Finding
 	curCommitter string
 }
 
@@ -152,7 +154,21 @@ func (p *output) out(_ *pipeline.WorkerData, b *pipeline.Batch) error {
 	i := o.calls
 	o.calls++
 	c := byte('o')
-	if len(o.sc.sends) > 0 {
+	if scr, ok := o.sc.script[ids[0]]; ok {
+		k := o.perBatch[ids[0]]
+		for k < len(scr) && scr[k] == 's' {
+			for _, id := range ids {
+				o.pending[id] = true
+			}
+			vsched.Sleep(100 * time.Millisecond) // a slow send: the batch stays in flight
+			k++
+		}
+		if k < len(scr) {
+			c = scr[k]
+			k++
+		}
+		o.perBatch[ids[0]] = k
+	} else if len(o.sc.sends) > 0 {
 		if i < len(o.sc.sends) {
 			c = o.sc.sends[i]
 		} else if o.sc.sends[len(o.sc.sends)-1] == 'F' {
@@ -177,7 +193,7 @@ func (p *output) out(_ *pipeline.WorkerData, b *pipeline.Batch) error {
 
 func body(sc scen) {
 	o = &obs{sc: sc, idOf: map[*pipeline.Event]int{}, commits: map[int][]string{}, commitAt: map[int]time.Duration{}, onErr: map[int]int{},
-		dqOut: map[int]int{}, dqSent: map[int]int{}, pending: map[int]bool{}, gaveUp: map[int]bool{}}
+		dqOut: map[int]int{}, dqSent: map[int]int{}, pending: map[int]bool{}, gaveUp: map[int]bool{}, perBatch: map[int]int{}}
 	r := pipeline.NewRouter()
 	r.SetOutput(&pipeline.OutputPluginInfo{PluginStaticInfo: &pipeline.PluginStaticInfo{Type: "main"},
 		PluginRuntimeInfo: &pipeline.PluginRuntimeInfo{Plugin: &output{count: sc.count, workers: sc.workers}}})
@@ -382,6 +398,11 @@ func scenarios(thorough bool) []scen {
 	for _, dq := range []string{"", "sync", "batch2"} {
 		s = append(s, scen{name: "kinds-cpr-ff-dq" + dq, retry: 0, sends: "ff", dq: dq, workers: 1, count: 3, events: 3, kinds: "cpr", bound: 1, horizon: 20 * time.Second})
 		s = append(s, scen{name: "kinds-p-alone-dq" + dq, retry: 0, sends: "ff", dq: dq, workers: 1, count: 2, events: 2, kinds: "rp", bound: 1, horizon: 20 * time.Second})
+	}
+	// an earlier batch still in flight (slow send) while a later one exhausts its retries
+	for _, dq := range []string{"", "sync", "batch1"} {
+		s = append(s, scen{name: "slow-first-later-exhausts-dq" + dq, retry: 0, dq: dq, workers: 2, count: 1, events: 3, script: map[int]string{0: "so", 1: "ff", 2: "o"}, bound: 1, horizon: 20 * time.Second})
+		s = append(s, scen{name: "w3-slow-first-two-exhaust-dq" + dq, retry: 1, dq: dq, workers: 3, count: 1, events: 3, script: map[int]string{0: "sso", 1: "fff", 2: "ffo"}, bound: 1, horizon: 20 * time.Second})
 	}
 	// long outage in virtual time on the default schedule
 	s = append(s, scen{name: "outage-forever", retry: -1, sends: "F", dq: "", workers: 1, count: 1, events: 1, bound: 0, horizon: 40 * time.Minute})
